@@ -128,7 +128,9 @@ func runC07(r *Run) {
 		r.FailEdge(fn, "getEntries", EdgeSpec{Name: "surplus-leaves", Atom: ordAtomR("len(*.Leaves)", "((1 + trillian/ctfe.parseGetEntriesRange(*)#1) - trillian/ctfe.parseGetEntriesRange(*)#0)"), Bad: ">", Want: wantStatus("500")})
 		r.FailEdge(fn, "getEntries", EdgeSpec{Name: "leaf-misindexed", Atom: ordAtomR("*.Leaves[*].LeafIndex", "(* + trillian/ctfe.parseGetEntriesRange(*)#0)"), Bad: "<,>", Want: wantStatus("500")})
 		// the index compared is start + i for the very element inspected
-		for _, b := range r.blocksTesting(fn, func(ci *CondInfo) bool { return ci.Kind == "ord" && (glob("*.Leaves[*].LeafIndex", ci.A) || glob("*.Leaves[*].LeafIndex", ci.B)) }) {
+		for _, b := range r.blocksTesting(fn, func(ci *CondInfo) bool {
+			return ci.Kind == "ord" && (glob("*.Leaves[*].LeafIndex", ci.A) || glob("*.Leaves[*].LeafIndex", ci.B))
+		}) {
 			ifi := b.Instrs[len(b.Instrs)-1].(*ssa.If)
 			if bo, ok := ifi.Cond.(*ssa.BinOp); ok {
 				idxSide, leafSide := bo.Y, bo.X
@@ -207,6 +209,8 @@ func runC07(r *Run) {
 	}
 	for _, w := range []string{"trillian/ctfe.rpcGetLeavesByRange", "trillian/ctfe.rpcGetEntryAndProof"} {
 		if fn := r.Fn(w); fn != nil {
+			// an entry whose chain could not be restored is never served
+			r.ErrorsGate(fn, short(w)+":chain-restored", "iface(trillian/ctfe.leafChainBuilder).FixLogLeaf", 1)
 			for _, ret := range Returns(fn) {
 				if errKind(ret.Results[2]) == "nil" {
 					r.Check(short(w)+":returns-reply", glob("iface(trillian.TrillianLogClient).*(p1.rpcClient, p0, p2, nil)#0", r.D.D(ret.Results[0])), r.Where(ret), "returns the backend's reply for the caller's request: "+r.D.D(ret.Results[0]))
